@@ -39,6 +39,7 @@ void enableCapture(bool on);
 bool fdOpen(int fd);
 int openFdCount();            // simulated descriptors currently open (listeners, connections, pending)
 int openConnCount();          // ... connected endpoints only
+int openAcceptedCount();      // ... connected endpoints on the accepting (server) side only
 
 } // namespace net
 } // namespace sim
